@@ -957,8 +957,11 @@ class InlineCall(StrCompareMixin, pmbl.CallWithKwargs):
 
     def __hash__(self):
         # A custom `__hash__` function to protect us from unhashasble
-        # dicts that `pmbl.CallWithKwargs` uses internally
-        return hash(self.__getinitargs__())
+        # dicts that `pmbl.CallWithKwargs` uses internally. Keyword names
+        # are canonicalised in the same way as in `__eq__` to ensure
+        # that equal calls (e.g., differing only in case) hash equally
+        kw_names = tuple(self._canonical(kw) for kw in as_tuple(self.kw_parameters))
+        return hash((self.function, self.parameters, kw_names))
 
     @property
     def name(self):
